@@ -667,7 +667,11 @@ func (l *List) CombineN(sta funcGen.Stack[Value]) (*List, error) {
 		}
 		return NewListFromIterable(func(st funcGen.Stack[Value]) iterator.Producer[Value] {
 			return iterator.CombineN[Value, Value](l.iterable(st), int(n), func(i0 int, i []Value) (Value, error) {
-				st.Push(NewList(i...))
+				// the iterator reuses the slice i for the following groups, so the
+				// list handed to the function needs its own copy of the items
+				items := make([]Value, len(i))
+				copy(items, i)
+				st.Push(NewList(items...))
 				return f.Func(st.CreateFrame(1), nil)
 			})
 		}), nil
